@@ -37,7 +37,7 @@ def plan(tier, seed):
 
 def thresholds(tier):
   t = {"configs_completed": 100, "ops_replayed": 10000, "subword_ops": 500, "amo_ops": 200, "responses_checked": 10000,
-       "multiport_configs": 50, "rtl_configs": 30, "cl_configs": 30, "backpressure_configs": 30, "metamorphic_pairs": 8, "configs_with_ports_of_different_data_width": 20, "cl_memory_with_rtl_masters_configs": 30, "image_api_calls": 1000}
+       "multiport_configs": 50, "rtl_configs": 30, "cl_configs": 30, "backpressure_configs": 30, "metamorphic_pairs": 8, "configs_with_ports_of_different_data_width": 20, "cl_memory_with_rtl_masters_configs": 30, "image_api_calls": 1000, "fl_configs": 20}
   if tier == "thorough":
     t = {k: v * 20 for k, v in t.items()}
   return t
@@ -140,6 +140,63 @@ def build(model, nports, streams, gaps, ev, stall, latency, patterns, dws=None):
         for i in range(nports):
           connect(s.srcs[i].send, s.mem.ifc[i].req)
           connect(s.mem.ifc[i].resp, s.sinks[i].recv)
+  elif model == "fl":
+    # the FL memory behind a CL master: pymtl3 inserts the MemIfcCL2FLAdapter (one port, requests served at once)
+    from pymtl3 import update_once
+    from pymtl3.stdlib.mem import MagicMemoryFL
+    from pymtl3.stdlib.mem.mem_ifcs import MemMasterIfcCL
+    depth_fl = [0]
+    class MemFLMon(MagicMemoryFL):          # the same memory with its three primitives recorded (the interface binds these methods)
+      def _rec(s, kind, a, r):
+        if depth_fl[0] == 0:
+          ev.append(("port", 0))
+          if kind == "read": ev.append(("op", "read", int(a[0]), int(a[1]), None, int(r)))
+          elif kind == "write": ev.append(("op", "write", int(a[0]), int(a[1]), int(a[2]), None))
+          else: ev.append(("op", "amo", int(a[1]), int(a[2]), int(a[3]), int(r), int(a[0])))
+      def read(s, addr, nbytes):
+        depth_fl[0] += 1
+        try: r = MagicMemoryFL.read(s, addr, nbytes)
+        finally: depth_fl[0] -= 1
+        s._rec("read", (addr, nbytes), r); return r
+      def write(s, addr, nbytes, data):
+        depth_fl[0] += 1
+        try: MagicMemoryFL.write(s, addr, nbytes, data)
+        finally: depth_fl[0] -= 1
+        s._rec("write", (addr, nbytes, data), None)
+      def amo(s, amo, addr, nbytes, data):
+        depth_fl[0] += 1
+        try: r = MagicMemoryFL.amo(s, amo, addr, nbytes, data)
+        finally: depth_fl[0] -= 1
+        s._rec("amo", (amo, addr, nbytes, data), r); return r
+    class MasterCL(Component):
+      def recv(s, msg):
+        msg = msg.clone(); s.got.append(msg); s.ev.append(("rsp", 0, msg))
+      def recv_rdy(s): return s.now_ready
+      def construct(s, msgs, gaps, ev):
+        s.mem = MemMasterIfcCL(ptypes[0][0], ptypes[0][1], s.recv, s.recv_rdy)
+        s.msgs, s.gaps, s.ev = msgs, gaps, ev
+        s.idx = 0; s.wait = gaps[0] if gaps else 0; s.now_ready = True; s.got = []
+        @update_once
+        def up_src():
+          if s.idx < len(s.msgs) and not s.reset:
+            if s.wait > 0: s.wait -= 1
+            elif s.mem.req.rdy():
+              s.ev.append(("acc", 0, s.idx))
+              s.mem.req(s.msgs[s.idx]); s.idx += 1
+              s.wait = s.gaps[s.idx] if s.idx < len(s.gaps) else 0
+      def done(s): return s.idx >= len(s.msgs)
+      def line_trace(s): return ""
+    class Top(Component):
+      def construct(s):
+        s.master = MasterCL(msgs[0], gaps[0], ev)
+        s.mem = MemFLMon(MEMSZ)
+        s.mem.ifc //= s.master.mem
+        s.srcs = None
+    top = Top()
+    top.elaborate()
+    top.srcs = [top.master]; top.sinks = [top.master]
+    top.apply(DefaultPassGroup())
+    return top
   elif model == "clrtl":
     # the CL memory driven by RTL masters: pymtl3 inserts RTL<->CL adapters, which hand the LIVE request signal object to the memory
     from pymtl3.stdlib.mem.MagicMemoryCL import MagicMemoryCL
@@ -205,7 +262,7 @@ def simulate(sh, cfg, streams):
   try:
     top.sim_reset()
     while cyc < bound:
-      if cfg["model"] in ("cl", "clrtl"):
+      if cfg["model"] in ("cl", "clrtl", "fl"):
         for i in range(n):
           top.sinks[i].now_ready = bool(cfg["patterns"][i][cyc % len(cfg["patterns"][i])])
       top.sim_tick()
@@ -335,8 +392,9 @@ def check_history(sh, cfg, streams, ev, cyc, bound, err, image):
 
 
 def run_config(sh, rng, case, probe=None):
-  model = rng.choice(["cl", "cl", "rtl", "clrtl"])
+  model = rng.choice(["cl", "cl", "rtl", "clrtl", "fl"])
   nports = rng.choice([1, 2, 2, 3, 4]) if model == "cl" else rng.choice([1, 2, 2])
+  if model == "fl": nports = 1
   latency = rng.choice([0, 1, 1, 2, 3, 5, 8]) if model == "cl" else rng.choice([0, 0, 1, 2, 4])
   if model == "clrtl": latency = rng.choice([0, 0, 1, 2])
   stall = rng.choice([0, 0, 0.1, 0.5, 0.9])
@@ -361,7 +419,11 @@ def run_config(sh, rng, case, probe=None):
   cfg = {"model": model, "dws": dws, "nports": nports, "latency": latency, "stall": stall, "nwords": nwords, "bp": bp,
          "patterns": [pat() for _ in range(nports)], "gaps": [gen_gaps(rng, nops) for _ in range(nports)],
          "bp_factor": {"none": 1, "half": 3, "bursty": 4, "rare": 10}[bp], "subword_amo": subword_amo, "case": case}
-  ev, cyc, bound, err, image = simulate(sh, cfg, streams)
+  try:
+    ev, cyc, bound, err, image = simulate(sh, cfg, streams)
+  except Exception as e:
+    sh.violation("legal-memory-system-could-not-be-built", {"model": model, "nports": nports, "dws": dws, "error": f"{type(e).__name__}: {' '.join(str(e).split())[:300]}"}, case=case)
+    return
   got = check_history(sh, cfg, streams, ev, cyc, bound, err, image)
   sh.count("evaluations"); sh.count("configs_completed")
   sh.count(model + "_configs")
